@@ -134,6 +134,41 @@ def auto_stubs(repo, A, stderr):
                     break
             if done:
                 break
+        if done:
+            continue
+        # a provided method of a trait the type implements (the unit instantiates such methods as inherent ones)
+        header = None
+        for f in files:
+            src, m = U.load(repo, f)
+            for it in rs.items(src, m, 0, len(src)):
+                if it.kind == "impl" and not it.cfg_test and it.impl_type == ty:
+                    h = src[it.head:it.body_open].strip()
+                    mg = re.match(r"impl\s*(<[^>]*>)?", h)
+                    gen = (mg.group(1) or "") if mg else ""
+                    tail = h.split(" for ")[-1].strip() if " for " in h else re.sub(r"^impl\s*(<[^>]*>)?\s*", "", h)
+                    header = "impl%s %s" % (gen, tail)
+                    break
+            if header:
+                break
+        if header:
+            for f in files:
+                src, m = U.load(repo, f)
+                for it in rs.items(src, m, 0, len(src)):
+                    if it.kind != "trait" or it.cfg_test:
+                        continue
+                    for sub in rs.items(src, m, it.body_open + 1, it.end - 1):
+                        if sub.kind == "fn" and sub.name == name:
+                            sig = src[sub.head:sub.sig_end].strip()
+                            text = "\n%s {\n    #[verifier::external_body]\n    %s { unimplemented!() }\n}\n" % (header, sig)
+                            out.append((text, "%s::%s (provided by trait %s, %s:%d) is called by changed code but is not under "
+                                        "contract: modelled as an external function with unconstrained result" %
+                                        (ty, name, it.name, f, U.line_of(src, sub.start))))
+                            done = True
+                            break
+                    if done:
+                        break
+                if done:
+                    break
     return out
 
 
